@@ -23,15 +23,27 @@ class Gen:
     def dag(self, n, p_edge, weighted=False):
         r = self.rng
         perm = list(range(n)); r.shuffle(perm)          # topological position -> node index
-        edges = []
+        em = {}
         for i in range(n):
             for j in range(i + 1, n):
                 if r.random() < p_edge:
-                    w = r.choice([0, 1, 1, 2, 3, 5]) if weighted else 0
-                    edges.append((perm[i], perm[j], w))
+                    w = r.choice([0, 0, 1, 1, 2, 3, 5]) if weighted else 0
+                    em[(perm[i], perm[j])] = w
+        self.detour = None
+        if weighted and n >= 4 and r.random() < 0.6:
+            # a cheap many-hop chain next to a heavier shortcut: the minimum-weight path is not the one with fewest edges
+            k = r.randrange(4, min(n, 6) + 1)
+            pos = sorted(r.sample(range(n), k))
+            cheap = r.choice([0, 0, 0, 1])
+            for x, y in zip(pos, pos[1:]):
+                em[(perm[x], perm[y])] = cheap
+            em[(perm[pos[0]], perm[pos[-1]])] = cheap * (k - 1) + r.randrange(1, 4)
+            self.detour = (perm[pos[0]], perm[pos[-1]])
+        edges = [(a, b, w) for (a, b), w in em.items()]
+        r.shuffle(edges)
         return edges, perm
 
-    def tree(self, depth, kind=None, singles_only=False, weighted=False, budget=12):
+    def tree(self, depth, kind=None, singles_only=False, weighted=False, budget=12, nmax=None):
         r = self.rng
         if kind is None:
             kind = 0 if (depth <= 0 or self.n_nodes >= budget) else r.choices([0, 1, 2], [5, 2, 2])[0]
@@ -44,7 +56,7 @@ class Gen:
             for _ in range(n):
                 out += self.tree(depth - 1, 0 if singles_only else None, budget=budget)
             return out
-        n = r.randrange(1, 7 if depth >= 1 else 5)
+        n = r.randrange(1, (nmax + 1) if nmax else (7 if depth >= 1 else 5))
         edges, perm = self.dag(n, r.choice([0.25, 0.4, 0.6]), weighted)
         root = perm[0] if r.random() < 0.85 else r.randrange(0, n)
         if r.random() < 0.04: root = -1
